@@ -5,13 +5,15 @@ C14 model: the consensus write-ahead log at byte level (core Lean only).
                               WALDecoder.Decode  : bare `Read`s on the underlying reader, length bound, CRC before decode
                               baseWAL.SearchForEndHeight : files newest first, every scan runs from the first byte of
                                                     that file to the end of the group
-  libs/autofile/group.go      Group.Write (through a bufio.Writer of `B` bytes), Flush (+Sync), RotateFile (renames
-                              the head WITHOUT flushing the bufio buffer), GroupReader.Read (spans files, fills the
+  libs/autofile/group.go      Group.Write (through a bufio.Writer of `B` bytes), Flush (+Sync), RotateFile (flushes the
+                              bufio buffer, then renames the head — fix ed188e7; the model keeps a switch
+                              `flushFirst` so that the old behaviour stays expressible), GroupReader.Read (spans files, fills the
                               slice or returns the error of the failed open: io.EOF after the last file)
 
 The payload codec (libs/ser, property C11) is abstract: `Codec.ok` says whether `ser.DecodeBytes` accepts a payload,
 `Codec.eh` recognises an `EndHeightMessage` and yields its height.  A decoded message is represented by its payload bytes.
-The model follows the code that exists, defects included (un-flushed rotation, non-corruption errors on torn tails).
+The model follows the code that exists, defects included (non-corruption errors on torn tails: finding
+`wal-search-torn-tail`; the un-flushed rotation was repaired by ed188e7).
 -/
 namespace Model.Wal
 
@@ -132,7 +134,8 @@ def Group.write (B : Nat) (g : Group) (p : Bytes) : Group :=
 def Group.flush (g : Group) : Group := { g.appendHead g.buf with buf := [] }
 
 /-- `Group.RotateFile`: close + rename head to the next index.  `flushFirst` is the generated fact
-"RotateFile flushes the bufio writer before the rename" (false on the current tree).  `none` = the rename
+"RotateFile flushes the bufio writer before the rename" (true on the current tree since fix ed188e7; `false` is the
+behaviour before the fix, kept for `Props.C14.C14_rotation_counterexample`).  `none` = the rename
 fails (no head on disk) and the code panics. -/
 def Group.rotate (flushFirst : Bool) (g : Group) : Option Group :=
   -- `headBuf.Flush()` only: nothing is written (and no head is created) when the buffer is empty
